@@ -33,6 +33,16 @@ CLAIMED = {
    note="Trusted: Coq kernel + vm_compute + primitive floats; no axioms; harness; BLAS dot accumulation order is unknown so the final value is compared within 4*len*u*sum|w_i f_i|. Grids shorter than 2mm+2 are outside the property and the model. Conditioning-scaled rounding explored with exact rational polynomials, not proved.",
    technique="Coq/MathComp proof (index-range case split over the C15 theorem) + vm_compute correspondence",
    design="4/C16"),
+ 'C06': dict(
+   text="Machine-checked proof (Coq 8.16.1) in three layers. (A) Over any field containing s with 2 s^2 = 1 and 1/2: each of the nine Derivative stencils applied to the monomial d^k equals sigma(k) h^k for EVERY k, with an explicit integer signature table (period 8 for the complex-step stencils; proved from omega^8 = 1). (B) On the decision tables REGENERATED from /repo by the translator (parity, offset/step/c_0 tables, flip rule, name dispatch, num_terms, rule_index, richardson_step, method_order): for every method in {central, forward, backward, complex}, EVERY n >= 1 and order >= 1, the wanted derivative sits at row rule_index inside the moment system, the dispatched stencil's signature vanishes off the table's progression, its coefficient at n times the flip sign is the table's c_0, and the first uncontrolled Taylor index is n + method_order with spacing richardson_step. (C) Any characteristic-0 field: from those facts and w.M = e_r, rule applied to the difference quotient of any polynomial of degree < n + method_order, times the flip, over h^n, is f^(n)(x). Ties: exhaustive translator validation, moment matrix of _fd_matrix vs the exact Q model built from the regenerated tables, and the pinv row certified against the EXACT inverse with the exact condition number (kappa > 1e13 excluded and counted).",
+   note="Trusted: Coq kernel + vm_compute; no axioms; translator; harness; LAPACK pinv as a certified oracle. The three layers are each proved; instantiating (C)'s abstract sigma/off/st/T/r with (B)'s table values and (A)'s signatures is by matching statements, not yet one Coq term. Multicomplex uses no rule (proved trivial). Rounding is the certificate bound 8*u*kappa, not a floating-point proof.",
+   technique="Coq proof (lia over translated tables; field/ring for stencil signatures; MathComp for the moment system) + translator + exact-rational certificates",
+   design="4/C06"),
+ 'C12': dict(
+   text="Machine-checked proof (Coq 8.16.1, any field with i and 1/2, no axioms) about the executable Bicomplex model: phi(z1,z2) = (z1 - i z2, z1 + i z2) is a ring isomorphism onto C x C commuting with + - * neg rsub conjugate (conjugation swaps components), with inverse psi; z2 = 0 reduces to the complex operation; polynomial evaluation commutes with phi and at the multicomplex point x + i h + j h equals psi(P(x), P(x + 2 i h)); under the functional equations of the complex functions (explicit premises) the component formulas of sin, cos, sinh, cosh, exp, expm1 are exactly e1 f(z1 - i z2) + e2 f(z1 + i z2), and the pre-repair expm1 formula misses it by exactly 1 - exp(-i z2). The float instance (numpy complex functions as recorded oracles) is compared with the implementation each run; all 26 functions and the operator forms are compared with the idempotent formula at 50 digits.",
+   note="Trusted: Coq kernel + vm_compute + primitive floats; harness; numpy complex elementary functions as oracles; mpmath for the 50-digit reference. Division, powers, log, sqrt, inverse functions involve branch selection and are NOT proved (semantic comparison only). numpy's complex multiply uses FMA even for 0-d arrays, so products are compared within 2^-49 x operand scale rather than bit-exactly. The O(h^2) truncation clause for non-polynomial f is not proved.",
+   technique="Coq proof (ring/field reasoning over an abstract field) + vm_compute correspondence with oracle tables + 50-digit semantic comparison",
+   design="4/C12"),
 }
 REASON_TODO = "not claimed yet: the Coq model, theorems and correspondence for this property are still being built (see DESIGN.md section 8 for the order)"
 def main():
